@@ -1040,3 +1040,6 @@ func paramWritten(p *ssa.Parameter, depth int) bool {
 	}
 	return false
 }
+
+// AddrWritten: is the memory at the field address (or the map/slice loaded from it) modified through this address computation?
+func AddrWritten(addr ssa.Value) bool { return addrWritten(addr, 0) }
